@@ -222,6 +222,17 @@ Section Validio.
       | (sts', Some e, l', evs) => ({| w_sts := sts'; w_loc := l'; w_rows := w_rows w |}, Some e, evs)
       end
     else (emit w (w_sts w) (w_loc w) row, None, []).
+  (* a target that cannot represent every character (a file or encoded stream in, say, ASCII): the delegated row
+     writer raises UnicodeEncodeError, reported as DataFormatError, for a row with a character outside [enc]; nothing
+     of that row reaches the stream and the line counter stays (the checks have seen the row) *)
+  Definition write_row_enc (enc : N -> bool) (c : cid) (w : wstate) (row : list text) : wstate * option err * list event :=
+    let '(w', e, evs) := write_row c w row in
+    match e with
+    | Some _ => (w', e, evs)
+    | None => if forallb (forallb enc) row then (w', None, evs)
+              else ({| w_sts := w_sts w'; w_loc := w_loc w; w_rows := w_rows w |},
+                    Some (format_error {| l_line := 0; l_cell := 0 |}), evs)
+    end.
   Definition writer_close (c : cid) (w : wstate) : list CS * option err * list event := close c (w_sts w) (w_loc w).
 
 End Validio.
